@@ -5,6 +5,7 @@ Case grammar: see harness/run/pipe.go.
 import ShpanVerif.Util.Parse
 import ShpanVerif.Model.Pipe
 import ShpanVerif.Model.PipeTerminals
+import ShpanVerif.Model.PipeSetSrc
 import ShpanVerif.Spec.PipeSpec
 
 namespace ShpanVerif.Drive.PipeCommon
@@ -127,25 +128,6 @@ def variantsOf : List String → List (Nat × List (List Int))
   | _ :: rest => variantsOf rest
   | [] => []
 
-mutual
-/-- replace the contents of the probe source `r` (the operator object is at rest: its cursor is 0) -/
-def setSrc (r : Nat) (xs : List Int) : Pipe → Pipe
-  | .src r' ys idx => if r' == r then .src r' xs idx else .src r' ys idx
-  | .lc q p => .lc q (setSrc r xs p)
-  | .map f p => .map f (setSrc r xs p)
-  | .filter g p => .filter g (setSrc r xs p)
-  | .limit n c p => .limit n c (setSrc r xs p)
-  | .skip n d p => .skip n d (setSrc r xs p)
-  | .concat ps a b c => .concat (setSrcList r xs ps) a b c
-  | .zip ps o => .zip (setSrcList r xs ps) o
-  | .merge ps o sl => .merge (setSrcList r xs ps) o sl
-  | .window a b c d e f p => .window a b c d e f (setSrc r xs p)
-  | .cluster a b c d e f p => .cluster a b c d e f (setSrc r xs p)
-def setSrcList (r : Nat) (xs : List Int) : PipeList → PipeList
-  | .nil => .nil
-  | .cons p ps => .cons (setSrc r xs p) (setSrcList r xs ps)
-end
-
 def parseFault (s : String) : Option (Option (Nat × FaultKind)) :=
   if s == "nofault" then some none
   else match s.splitOn "@" with
@@ -231,7 +213,7 @@ structure RunResult where
 def fuelDefault : Nat := 100000
 
 /-- the operator object as it stands during run `r`: `srcv` sources hold that run's contents -/
-def pipeAt (p : Pipe) (r : Run) : Pipe := r.setSrcs.foldl (fun p (rid, xs) => setSrc rid xs p) p
+def pipeAt (p : Pipe) (r : Run) : Pipe := setSrcAll r.setSrcs p
 
 /-- one materialisation of the operator object `p` (the take wrapper is a fresh Limit) -/
 def runOnce (p : Pipe) (r : Run) : RunResult :=
